@@ -88,6 +88,8 @@ class C06(Prop):
             "req_msgs": t.choice((1, 1, 1, 2, 3)), "req_gap": t.choice((0.0, 0.0, 0.3)),
             # (ASGI) loop iterations take (virtual) time: a timer may fall due between callbacks that became ready at one instant
             "tick": t.draw(2) == 0,
+            # (byte streams) some steps of the producer yield b"" - a heartbeat that gives the response a chance to look at the client
+            "empty_items": [i for i in range(n) if t.draw(4) == 0] if surface.endswith("stream") and t.draw(3) == 0 else [],
         }
         # the producer object fails when asked for its iterator (__iter__ / __aiter__ raises): the producer's own exception, before any item
         plan["iter_fails"] = plan["iter_kind"] != "gen" and t.draw(8) == 0
@@ -142,18 +144,22 @@ class C06(Prop):
     # -- expected encodings ------------------------------------------------------
     @staticmethod
     def _item(plan, i):
-        return {"data": "i%d" % i} if plan["surface"].endswith("sse") else b"<%d>" % i
+        if plan["surface"].endswith("sse"):
+            return {"data": "i%d" % i}
+        return b"" if i in plan.get("empty_items", ()) else b"<%d>" % i        # b"": a heartbeat step of a byte stream
 
     @staticmethod
     def _enc(plan, i):
-        return b"data: i%d\n\n" % i if plan["surface"].endswith("sse") else b"<%d>" % i
+        if plan["surface"].endswith("sse"):
+            return b"data: i%d\n\n" % i
+        return b"" if i in plan.get("empty_items", ()) else b"<%d>" % i
 
     def _check_delivery(self, plan, ctx, surf, body, complete_expected):
         n_ok = plan["n"] if plan["boom_at"] is None else plan["boom_at"]
         data = body.replace(b": ping\n\n", b"")
         exp = [self._enc(plan, i) for i in range(n_ok)]
         k = None
-        for j in range(len(exp) + 1):
+        for j in range(len(exp), -1, -1):          # (the longest matching prefix: empty items make several prefixes equal)
             if data == b"".join(exp[:j]):
                 k = j
                 break
@@ -610,7 +616,7 @@ class C06(Prop):
                 for i in range(n):
                     if boom_at == i:
                         raise boom
-                    yield b"<%d>" % i
+                    yield self._item(plan, i)
                 if boom_at == n:
                     raise boom
             finally:
